@@ -11,3 +11,4 @@ ASSUMPTIONS = ["A-LIB: numpy.random / tf.random deliver independent uniform vari
 from vt.contracts import iface_gen  # noqa: F401,E402
 from vt.contracts import interp_sym  # noqa: F401,E402
 from vt.contracts import bwgen_sym  # noqa: F401,E402
+from vt.contracts import loops  # noqa: F401,E402  (multi_sampling exact count: loop VCs)
